@@ -233,9 +233,21 @@ def c14(tier, seed):
     ins = _with_insertions([scenario("cat_x_cat.v.ins", [cat("A", 3, vals=[1, 2, 3]), cat("B", 3, vals=[3, None, 1])]),
                             scenario("cat_1d.v.ins", [cat("A", 4, miss=[2], vals=[1, 9, 2, 4])])],
                            6 if tier == "quick" else 30, seed)
+    # huge tables: every bag of <= 3 batches of 99,999 / 100,000 / 100,001 identical
+    # respondents, so that a cumulative share lies within 1e-5 of one half without being
+    # equal to it (family "c14h": means and medians only, see Emit.tla)
+    from runner import make_job
+    huge = [scenario("cat_x_cat.huge", [cat("A", 2, vals=[1, 2]), cat("B", 3, vals=[1, 2, 4])], weighted=False),
+            scenario("cat_1d.huge", [cat("A", 4, miss=[2], vals=[1, 9, 3, 2])], weights=(1, 2)),
+            scenario("cat_x_cat.huge.w", [cat("A", 3, vals=[2, None, 1]), cat("B", 2, vals=[0, 3])], weights=(2,))]
+    if tier != "quick":
+        huge.append(scenario("cat_x_cat.huge2", [cat("A", 3, vals=[1, 2, 3]), cat("B", 3, miss=[1], vals=[-1, 7, 0])], weighted=False))
+    huge_jobs = [make_job(dict(s, batches=(99999, 100000, 100001), max_resp=300001), "c14h",
+                          ("replay_basic", "replay"), mode="bfs", prop_id="C14",
+                          timeout=300 if tier == "quick" else 1500) for s in huge]
     return dict(
         jobs=_value_jobs("C14", "c14", scns + ins, tier, seed,
-                         power=((1, 4, 9), 40, 6, 5 if tier == "quick" else 80)),
+                         power=((1, 4, 9), 40, 6, 5 if tier == "quick" else 80)) + huge_jobs,
         rule="numeric-value assignments from {-1,0,1,2,none} (fixed + seeded) x every bag of "
              "<= N respondents (so zero-count categories fall anywhere in the value order) and "
              "random larger bags; subtotal vectors via insertion configurations",
